@@ -192,14 +192,16 @@ impl<'de, R: Reader<'de>> Parser<R> {
             final(self).read.idx() >= old(self).read.idx(),
     { unimplemented!() }
 
-    // non-validating skipper: ASSUMED to agree with the validating one on a well-formed value (C10 kernels: the string
-    // and number branches are proved in unit `unchecked`, skip_container is not); no guarantee otherwise
+    // non-validating skipper: proved in unit `unchecked` (skip_one_unchecked == skip_one on a well-formed value that is
+    // followed by whitespace and `,` `]` `}` or the end of input — the unsafe API's precondition); restated here as an
+    // implication because this unit also calls it on arbitrary input
     #[verifier::external_body]
     pub fn skip_one_unchecked(&mut self) -> (res: Result<(&'de [u8], ParseStatus)>)
         requires old(self).pinv(),
         ensures final(self).pinv(), final(self).same_doc(old(self)), final(self).read.idx() >= old(self).read.idx(),
-            value_end(old(self).read.data(), old(self).read.idx() as int).is_some() ==> res.is_ok()
-                && final(self).read.idx() == value_end(old(self).read.data(), old(self).read.idx() as int).unwrap(),
+            value_end(old(self).read.data(), old(self).read.idx() as int).is_some()
+                && follow_ok(old(self).read.data(), value_end(old(self).read.data(), old(self).read.idx() as int).unwrap())
+                ==> res.is_ok() && final(self).read.idx() == value_end(old(self).read.data(), old(self).read.idx() as int).unwrap(),
     { unimplemented!() }
 
 //@extract file=src/parser.rs impl="Parser<R>" fn=match_literal
@@ -227,10 +229,10 @@ impl<'de, R: Reader<'de>> Parser<R> {
                 let i = old(self).read.idx() as int;
                 // validating mode: succeeds only on a well-formed value
                 &&& (strict && res.is_ok() ==> value_end(s, i).is_some())
-                // on a well-formed value (both modes): succeeds, stops just after it, and the value built is its
+                // on a well-formed value (non-strict mode: followed by whitespace and `,` `]` `}` or the end): succeeds, stops just after it, and the value built is its
                 // one-level view: the exact source span (no surrounding whitespace), literals parsed
-                &&& (value_end(s, i).is_some() ==> res.is_ok() && final(self).read.idx() == value_end(s, i).unwrap()
-                        && res.unwrap().shape() == child_shape(s, i))
+                &&& (value_end(s, i).is_some() && (strict || follow_ok(s, value_end(s, i).unwrap()))
+                        ==> res.is_ok() && final(self).read.idx() == value_end(s, i).unwrap() && res.unwrap().shape() == child_shape(s, i))
             }),
 //@before /let c = self\.skip_space\(\);/
         let ghost s = self.read.data();
